@@ -72,7 +72,9 @@ var (
 	gSchemes  = []string{"http", "https", "HTTP"}
 	gHosts    = []string{"example.com", "Example.COM", "example.com:8080", "other.org"}
 	gPaths    = []string{"", "/", "/a", "/a/", "/A", "/a/b", "/a/./b", "/a/c/../b", "/c/..", "/a/b/", "/../a", "/a/../../b"}
-	gQueries  = []string{"", "?x=1", "?x=1&y=2", "?y=2&x=1", "?x=1&x=2", "?x=2&x=1", "?x=1&x=1", "?x=2", "?x=2&y=1", "?a=1&b=2&c=3", "?a=2&b=3&c=1"}
+	gQueries  = []string{"", "?x=1", "?x=1&y=2", "?y=2&x=1", "?x=1&x=2", "?x=2&x=1", "?x=1&x=1", "?x=2", "?x=2&y=1", "?a=1&b=2&c=3", "?a=2&b=3&c=1",
+		// one key three times: the same distinct values in different multiplicities
+		"?t=a&t=a&t=b", "?t=a&t=b&t=b", "?t=b&t=a&t=a", "?t=a&t=b"}
 	gFrags    = []string{"", "#f"}
 	subScheme = []string{"http", "HTTPS"}
 	subHosts  = []string{"example.com", "EXAMPLE.com", "example.com:8080"}
@@ -180,6 +182,9 @@ func c14Contains(c *Ctx, l []string, r string) {
 			want = true
 		}
 	}
+	if r == "" || r == "-" {
+		want = false // the nil item is a member of nothing (the collections' nil rule)
+	}
 	if got != want {
 		c.Fail("C14/contains", fmt.Sprintf("IRIs%q.Contains(%q) = %v but some member equal = %v", l, r, got, want), in)
 	}
@@ -212,6 +217,14 @@ func init() {
 				}
 			}
 			c14GridPair(c, a, b, c.R.Bool())
+		}
+		// every pair of queries on one host and path, both scheme settings
+		for _, qa := range gQueries {
+			for _, qb := range gQueries {
+				for _, cs := range []bool{false, true} {
+					c14GridPair(c, gridURL{"https", "example.com", "/a", qa, ""}, gridURL{"https", "EXAMPLE.com", "/a/", qb, "#f"}, cs)
+				}
+			}
 		}
 		// letters beyond ASCII in the path, in two letter cases, combined with a trailing slash / dot segment /
 		// fragment (outside the model's URL grammar: judged by the oracle, which folds like strings.EqualFold)
@@ -311,6 +324,21 @@ func init() {
 				l[c.R.Intn(len(l))] = gridURL{"https", g.Host, g.Path + "/", g.Query, "#z"}.String()
 			}
 			c14Contains(c, l, r)
+		}
+		// membership among strings that are no absolute URLs (rooted, scheme-relative, scheme-less, opaque), with and
+		// without a fragment: Contains agrees with Equals there too
+		rel := []string{"/users/alice", "/users/alice#main-key", "/users/alice#other", "//example.com/a", "//example.com/a#f", "example.com/a", "example.com/a#x",
+			"did:example:123", "did:example:123#key-1", "http:///x", "https:///x", "http:///x#f", "#a", "a#b", "a", "A", "urn:x:y", "urn:x:y#z", "URN:X:Y"}
+		for _, m := range rel {
+			for _, n := range rel {
+				c14Contains(c, []string{m}, n)
+			}
+			c14Contains(c, []string{"https://example.com/z", m, "/other"}, m+"#frag")
+		}
+		for _, m := range short {
+			for _, n := range short {
+				c14Contains(c, []string{m}, n)
+			}
 		}
 		c.Exhaust = true
 	}
